@@ -46,7 +46,7 @@ def run_harness(ck, binary, ops, tag, as_gb=6, timeout=300, max_crashes=60):
         with open(fn, "w") as f:
             f.write("\n".join(todo) + "\n")
         try:
-            p = subprocess.run([binary], stdin=open(fn), capture_output=True, text=True, timeout=timeout,
+            p = subprocess.run([binary], stdin=open(fn), capture_output=True, text=True, timeout=timeout * lib.load_factor(),
                                env=lib.go_env(), cwd=ck.scratch, preexec_fn=_limit(as_gb))
             out = p.stdout
         except subprocess.TimeoutExpired as ex:
